@@ -128,7 +128,136 @@ def bounded_transport(tier, seed):
             "evaluations": n, "distinct_nontrivial": len(distinct), "exhaustive": True, "failures": failures}
 
 
-BOUNDED = [bounded_transport]
+def _send(transport, log, **kw):
+    import asyncio
+
+    async def go():
+        return await transport.request("GET", "/p", **kw)
+    asyncio.run(go())
+    return log[-1]
+
+
+def _transport(auth, log):
+    import httpx
+    from pyopenapi_gen.core.http_transport import HttpxTransport
+    t = HttpxTransport("https://example.invalid", auth=auth, default_headers={"A": "d"})
+
+    async def fake_request(m, u, **kw):
+        log.append(dict(kw))
+        return httpx.Response(200, text="ok", request=httpx.Request(m, "https://example.invalid" + u))
+    t._client.request = fake_request
+    return t
+
+
+def bounded_composition_order(tier, seed):
+    """nested composites: the header written last in depth-first, left-to-right order of the CONSTRUCTION tree wins (oracle: a fold over the
+    tree the harness built, not over the object's own .plugins)"""
+    from pyopenapi_gen.core.auth.base import CompositeAuth
+    from pyopenapi_gen.core.auth.plugins import HeadersAuth
+    leaves = ["L1", "L2", "L3", "L4"]
+
+    def trees(names):
+        # all ways to nest a sequence of leaves into composites (ordered partitions, one level of recursion per group)
+        if len(names) == 1:
+            yield names[0]
+            return
+        for k in range(1, len(names) + 1):
+            for rest in ([()] if k == len(names) else [None]):
+                pass
+        # split into consecutive groups
+        def splits(seq):
+            if not seq:
+                yield []
+                return
+            for i in range(1, len(seq) + 1):
+                for tail in splits(seq[i:]):
+                    yield [seq[:i]] + tail
+        for groups in splits(names):
+            if len(groups) == 1:
+                continue
+            for combo in itertools.product(*[list(trees(g)) for g in groups]):
+                yield tuple(combo)
+
+    def build(t):
+        if isinstance(t, str):
+            return HeadersAuth({"Authorization": t, "X-" + t: "1"})
+        return CompositeAuth(*[build(x) for x in t])
+
+    def order(t):
+        return [t] if isinstance(t, str) else [y for x in t for y in order(x)]
+    n, failures = 0, []
+    for k in (2, 3, 4):
+        for names in itertools.permutations(leaves, k):
+            for t in trees(list(names)):
+                if isinstance(t, str):
+                    continue
+                log = []
+                sent = _send(_transport(build(t), log), log)
+                n += 1
+                exp = order(t)[-1]
+                got = (sent.get("headers") or {}).get("Authorization")
+                missing = [x for x in order(t) if (sent.get("headers") or {}).get("X-" + x) != "1"]
+                if got != exp or missing:
+                    failures.append({"id": "bounded:composite:composition-order", "detail": f"CompositeAuth tree {t!r}: Authorization sent {got!r}, expected {exp!r} "
+                                     f"(last writer in composition order); contributions missing: {missing}", "input": {"tree": repr(t)}})
+                    break
+    return {"function": "CompositeAuth (arbitrarily nested) under HttpxTransport.request: last writer in depth-first construction order wins, every leaf contributes",
+            "backend": "bounded", "bound": "every nesting of every ordered selection of 2..4 distinct header-writing leaves", "evaluations": n, "distinct_nontrivial": n,
+            "exhaustive": False, "failures": failures[:3]}
+
+
+def bounded_repeated_requests(tier, seed):
+    """the plugin chain runs for EVERY request: a credential that changes between two otherwise identical requests is sent changed"""
+    from pyopenapi_gen.core.auth.base import CompositeAuth
+    from pyopenapi_gen.core.auth.plugins import ApiKeyAuth, BearerAuth, OAuth2Auth
+    n, failures = 0, []
+    counter = {"n": 0}
+
+    async def refresh(tok):
+        counter["n"] += 1
+        return f"token-{counter['n']}"
+
+    def mutate_bearer(p):
+        p.token = "rotated"
+
+    def mutate_key(p):
+        p.key = "rotated"
+    cases = [("oauth2-refresh", lambda: OAuth2Auth("t0", refresh), None, lambda h, i: h.get("Authorization") == f"Bearer token-{i}"),
+             ("bearer-token-reassigned", lambda: BearerAuth("first"), mutate_bearer, lambda h, i: h.get("Authorization") == ("Bearer first" if i == 1 else "Bearer rotated")),
+             ("apikey-reassigned", lambda: ApiKeyAuth("first", "header", "X-Key"), mutate_key, lambda h, i: h.get("X-Key") == ("first" if i == 1 else "rotated")),
+             ("composite(oauth2-refresh)", lambda: CompositeAuth(ApiKeyAuth("k", "header", "X-Key"), OAuth2Auth("t0", refresh)), None, None)]
+    for name, mk, mutate, ok in cases:
+        for kw in ({}, {"headers": {"B": "1"}}, {"params": {"page": "1"}}):
+            counter["n"] = 0
+            plugin = mk()
+            log = []
+            t = _transport(plugin, log)
+            seen = []
+            for i in (1, 2, 3):
+                sent = _send(t, log, **{k: dict(v) for k, v in kw.items()})
+                n += 1
+                h = sent.get("headers") or {}
+                seen.append(h.get("Authorization") or h.get("X-Key"))
+                if ok is not None and not ok(h, i):
+                    failures.append({"id": f"bounded:repeated-request:{name}", "detail": f"{name}: request {i} of 3 identical requests ({kw}) carried {seen[-1]!r}: "
+                                     f"the plugin was not consulted again", "input": {"plugin": name, "kwargs": kw, "request": i}})
+                    break
+                if ok is None and h.get("Authorization") != f"Bearer token-{i}":
+                    failures.append({"id": f"bounded:repeated-request:{name}", "detail": f"{name}: request {i} carried {h.get('Authorization')!r}", "input": {"plugin": name, "request": i}})
+                    break
+                if mutate is not None and i == 1:
+                    mutate(plugin)
+    seen_ids, uniq = set(), []
+    for f in failures:
+        if f["id"] not in seen_ids:
+            seen_ids.add(f["id"])
+            uniq.append(f)
+    return {"function": "HttpxTransport.request called three times with identical arguments while the credential changes (refresh callback / attribute reassigned)",
+            "backend": "bounded", "bound": "4 plugin configurations x 3 request shapes x 3 consecutive requests", "evaluations": n, "distinct_nontrivial": n,
+            "exhaustive": False, "failures": uniq}
+
+
+BOUNDED = [bounded_transport, bounded_composition_order, bounded_repeated_requests]
 
 MANIFEST = {
     "category": "proof",
